@@ -3,7 +3,7 @@ printing to WXML in varied concrete syntax, and a REFERENCE renderer written fro
 (it is emitted as straightforward JavaScript that builds the expected node tree for given data; names
 are resolved lexically by this module itself, innermost scope first).  Independent of the Lean model
 and of the compiler."""
-import json
+import json, os
 from . import exprgen as eg
 
 # ---------------------------------------------------------------------------------------------
@@ -43,7 +43,7 @@ def camel(s):
 
 
 class TmplGen:
-    def __init__(self, rng, data_names=None, max_depth=3, exprs="safe", src_modules=False):
+    def __init__(self, rng, data_names=None, max_depth=3, exprs="safe", src_modules=False, dyn=False):
         self.rng = rng
         self.data_names = data_names or ["a", "b", "c", "d", "l", "o", "f", "n", "item", "index", "x", "k"]
         self.max_depth = max_depth
@@ -56,6 +56,7 @@ class TmplGen:
             start = rng.below(len(MODULE_POOL))
             self.modules = [MODULE_POOL[(start + i) % len(MODULE_POOL)] for i in range(k)]
         self.slot_values = rng.chance(1, 4)    # elements may carry `slot:` value references
+        self.dyn = dyn                         # `cmp-dyn` (a component with dynamic slots: its content is rendered once per slot instance)
         # some modules live in script files (<wxs module="m" src="./m_mod"/>); callers that ask for them register the scripts (group_request)
         self.src_modules = [n for (n, _) in self.modules if rng.chance(1, 2)] if src_modules else []
 
@@ -186,7 +187,7 @@ class TmplGen:
                 name = fam
                 v = self.value(scope_names, ("static", "mixed") if fam == "slot" else ("static", "expr", "mixed"))
             elif fam == "plain":
-                name = r.choice(["title", "hidden", "foo-bar", "value", "aB", "x1", "hover-class"])
+                name = r.choice(["title", "hidden", "foo-bar", "value", "aB", "x1", "hover-class", "x-1", "a-B"])
                 v = r.choice([None, self.value(scope_names), self.value(scope_names)])
             elif fam in ("data-", "data:"):
                 name = r.choice(["a", "a-b", "xy", "k1"])
@@ -229,6 +230,21 @@ class TmplGen:
             out.append(nd)
         return out
 
+    def dyn_child(self, n):
+        """a direct child element of a dynamic-slot component: often aimed at the named slot `s1`, often reading slot values"""
+        r = self.rng
+        if n[0] != "elem":
+            return n
+        attrs = list(n[2])
+        if not any(a[0] == "slot" for a in attrs) and r.chance(1, 3):
+            attrs.append(("slot", "slot", ("static", "s1")))
+        have = {a[1] for a in attrs if a[0] == "slot:"}
+        if r.chance(1, 2):
+            for nm in r.choice([["a"], ["b", "a"], ["sv"], ["item"]]):
+                if nm not in have:
+                    attrs.insert(0, ("slot:", nm, None))
+        return (n[0], n[1], attrs, n[3])
+
     def carrier(self, scope_names, depth, in_sub):
         r = self.rng
         if r.chance(1, 3):
@@ -246,7 +262,11 @@ class TmplGen:
         if c < 6:
             refs = self.slot_refs()
             inner = scope_names + self.slot_scope(refs)
-            return ("elem", r.choice(["view", "text", "cmp-x", "v"]), refs + self.attrs(inner), self.children(inner, depth - 1, in_sub))
+            tag = r.choice(["view", "text", "cmp-x", "v", "cmp-y", "cmp-dyn" if self.dyn else "cmp-x"])
+            kids = self.children(inner, depth - 1, in_sub)
+            if tag == "cmp-dyn":
+                kids = [self.dyn_child(k) for k in kids]
+            return ("elem", tag, refs + self.attrs(inner), kids)
         if c == 6:
             return ("block", self.children(scope_names, depth - 1, in_sub))
         if c in (7, 8):
@@ -258,7 +278,8 @@ class TmplGen:
             lst = r.choice([("expr", ("data", "l")), ("expr", ("data", "o")), ("expr", self.expr(scope_names, 1)),
                             ("expr", ("bin", "LogicAnd", ("data", r.choice(["o", "c", "a"])), ("data", "l"))),
                             ("expr", ("bin", "LogicOr", ("data", r.choice(["d", "x"])), ("data", r.choice(["l", "o"])))),
-                            ("expr", ("arr", [("item", ("int", 1)), ("item", ("data", "a"))])), ("static", "ab")])
+                            ("expr", ("arr", [("item", ("int", 1)), ("item", ("data", "a"))])), ("static", "ab"),
+                            ("static", "a\U0001F600b"), ("expr", ("data", "b"))])      # strings are lists of UTF-16 code units
             inner = scope_names + [item or "item", index or "index"]
             return ("for", lst, item, index, key, self.carrier(inner, depth, in_sub))
         if c in (9, 10):
@@ -745,6 +766,38 @@ def ref_program(t):
 ARITY = {"a": 3, "c": 2, "y": 2, "i": 2, "=slot": 2, "wl": 3, "p": 3, "r": 3, "d": 3, "m": 3, "v": 7, "l": 3, "s": 2}
 
 
+COMPONENT_DEFS = json.load(open(os.path.join(os.path.dirname(os.path.abspath(__file__)), "..", "js", "stubs", "components.json")))
+
+
+def expected_effects(tag, calls):
+    """what the setter calls of the reference must have done to the node (ProcGenWrapper r / c / y): a component takes a declared property
+    under its camel-cased name, else an external class under the name as written, else nothing; a native node takes the attribute as written"""
+    o = {}
+    if tag.startswith("cmp-"):
+        d = COMPONENT_DEFS.get(tag, {"props": [], "externalClasses": []})
+        props, ext = {}, {}
+        for c in calls:
+            if c[0] == "r":
+                if camel(c[1]) in d["props"]:
+                    props[camel(c[1])] = c[2]
+                elif c[1] in d["externalClasses"]:
+                    ext[c[1]] = c[2]
+            elif c[0] == "c" and "class" in d["externalClasses"]:
+                ext["class"] = c[1]
+            elif c[0] == "y" and "style" in d["props"]:
+                props["style"] = c[1]
+        o["comp"] = True
+        if props:
+            o["props"] = props
+        if ext:
+            o["extClasses"] = ext
+    # (`extra-attr:` always writes the attribute; call order = attribute order, the later write wins)
+    attrs = {c[1]: c[2] for c in calls if c[0] == "a" or (c[0] == "r" and not tag.startswith("cmp-"))}
+    if attrs:
+        o["attrs"] = attrs
+    return o
+
+
 def norm_calls(calls):
     out = []
     for c in calls:
@@ -774,6 +827,16 @@ def project(tree, real=False):
             calls = norm_calls(tree.get("log" if real else "calls", []))
             if calls:
                 o["calls"] = calls
+        if "tag" in tree:
+            if real:
+                for k in ("comp", "props", "extClasses", "attrs", "pending"):
+                    if k in tree:
+                        o[k] = tree[k]
+            else:
+                o.update(expected_effects(tree["tag"], tree.get("calls", [])))
+            for k in ("props", "extClasses", "attrs"):
+                if k in o:
+                    o[k] = dict(sorted(o[k].items()))
         if tree.get("generics"):
             o["generics"] = tree["generics"]
         ch = project(tree.get("children", []), real)
